@@ -1,2 +1,177 @@
-(* Props/C04.v -- property theorems for C04 (placeholder while the pipeline is brought up). *)
-From XMT Require Import Base.Prelude Model.Codec Model.Decoders.
+(* Props/C04.v -- property theorems for C04: no bytes from the network can crash a listener or
+   make it allocate out of proportion to the bytes received; the same for the server-side
+   decoders of client-supplied result payloads.
+   Only statements; every proof is `exact <lemma>`; Print Assumptions under each.
+
+   `run d bs` is the model of decoder d of the CURRENT tree on the byte string bs (the same
+   definition the correspondence run evaluates on every generated case); its result is an
+   outcome (Ok digest | Err code | Panic: a Go run-time panic, produced by every index and slice
+   expression of the modelled code through idx/slice) and `alloc`, the bytes requested from
+   make/append before the input justifies them.  All statements are for ALL byte strings. *)
+From XMT Require Import Base.Prelude Model.Codec Model.Decoders Proofs.Decoders.
+
+(* ---- no decoder panics -------------------------------------------------------------- *)
+(* DNS transform, string lists and byte strings over a Chunk and over the stream reader, the
+   packet reader (wire and stream form), the seventeen result decoders, Machine / Network /
+   proxy data / readDeviceInfo *)
+Theorem C04_no_panic :
+  forall d bs, bytes_ok bs = true -> outcome (run d bs) <> Panic.
+Proof. exact run_no_panic. Qed.
+Print Assumptions C04_no_panic.
+
+(* ---- allocation is linear in the input, with explicit constants ------------------------
+   K: dns 1, string list 112 (the amortised cost of append per entry), result decoders 112,
+   machine/network/devinfo 1, everything else 0;  C: packets 4*65535 (the tag slice), network
+   16320, proxy data 14280, devinfo 30600, everything else 0.
+   chunk_backed excludes the two stream-reader decoders (known finding stream-bytes-alloc). *)
+Theorem C04_alloc_linear :
+  forall d bs, bytes_ok bs = true -> chunk_backed d = true ->
+  alloc (run d bs) <= K_of d * len bs + C_of d.
+Proof. exact run_alloc_linear. Qed.
+Print Assumptions C04_alloc_linear.
+
+(* the rule the harness applies to the implementation on every case: 128*|input| + 1 MiB *)
+Theorem C04_alloc_proportional :
+  forall d bs, bytes_ok bs = true -> chunk_backed d = true ->
+  alloc (run d bs) <= 128 * len bs + 1048576.
+Proof. exact run_alloc_proportional. Qed.
+Print Assumptions C04_alloc_proportional.
+
+(* ---- the DNS transform in detail (fix d9f26ba) ----------------------------------------- *)
+Theorem C04_dns_no_panic :
+  forall bs, bytes_ok bs = true -> outcome (dns_read true bs) <> Panic.
+Proof. exact dns_read_no_panic. Qed.
+Print Assumptions C04_dns_no_panic.
+
+(* the bytes handed to the writer never exceed the bytes received *)
+Theorem C04_dns_output_le_input :
+  forall bs, bytes_ok bs = true -> alloc (dns_read true bs) <= len bs.
+Proof. exact dns_read_alloc_linear. Qed.
+Print Assumptions C04_dns_output_le_input.
+
+(* the pinned tree panicked: before b[12], in the label walk, at the answer length, at the
+   record length and at the data slice *)
+Theorem C04_dns_pinned_refuted :
+  outcome (dns_read false [0]) = Panic /\
+  outcome (dns_read false [0;0;0;0;0;1;0;0;0;0;0;0;1;97]) = Panic /\
+  outcome (dns_read false [0;0;0;0;0;0;0;1;0;0;0;0; 0;0;0;0;0;0;0;0;0;0]) = Panic /\
+  outcome (dns_read false [0;0;0;0;0;0;0;0;0;0;0;1; 192;12;0;10;0;1;0]) = Panic /\
+  outcome (dns_read false [0;0;0;0;0;0;0;0;0;0;0;1; 192;12;0;10;0;1;0;0;0;0;0;9;1]) = Panic.
+Proof.
+  exact (conj dns_pinned_refuted_header (conj dns_pinned_refuted_label (conj dns_pinned_refuted_answer
+         dns_pinned_refuted_record))).
+Qed.
+Print Assumptions C04_dns_pinned_refuted.
+
+(* ---- string lists (fix 05faa5c) and counted result decoders (fix bd34833) ---------------- *)
+Theorem C04_string_list :
+  forall bs, outcome (strlist_flat true bs) <> Panic /\ alloc (strlist_flat true bs) <= 112 * len bs.
+Proof. exact strlist_flat_spec. Qed.
+Print Assumptions C04_string_list.
+
+Theorem C04_string_list_pinned_refuted :
+  outcome (run_pinned DStrListC [7;64;0;0;0;0;0;0;0]) = Panic /\
+  alloc (run_pinned DStrListC [5;0;32;0;0]) = 33554432.
+Proof. exact strlist_pinned_refuted. Qed.
+Print Assumptions C04_string_list_pinned_refuted.
+
+Theorem C04_result_decoders :
+  forall d bs, outcome (result_dec true d bs) <> Panic /\ alloc (result_dec true d bs) <= 112 * len bs.
+Proof. exact result_dec_spec. Qed.
+Print Assumptions C04_result_decoders.
+
+(* the count is compared with the bytes that remain BEFORE make(): whatever the element type *)
+Theorem C04_counted_list :
+  forall c esz fs r, 0 <= esz ->
+  outcome (counted true c esz fs r) <> Panic /\ alloc (counted true c esz fs r) <= esz * len r.
+Proof. exact counted_spec. Qed.
+Print Assumptions C04_counted_list.
+
+Theorem C04_result_pinned_refuted :
+  alloc (run_pinned (DResult RLs) [255;255;255;255]) = 68719476720 /\
+  alloc (run_pinned (DResult RWindowList) [0;16;0;0]) = 50331648 /\
+  alloc (run_pinned (DResult RUserLogins) [255;255]) = 6815640 /\
+  outcome (run_pinned (DResult RMounts) [7;64;0;0;0;0;0;0;0]) = Panic.
+Proof. exact result_pinned_refuted. Qed.
+Print Assumptions C04_result_pinned_refuted.
+
+(* ---- packets and registration data --------------------------------------------------------- *)
+Theorem C04_packet_readers :
+  forall bs, bytes_ok bs = true ->
+  (outcome (packet_wire bs) <> Panic /\ alloc (packet_wire bs) <= 4 * 65535) /\
+  (outcome (packet_stream bs) <> Panic /\ alloc (packet_stream bs) <= 4 * 65535).
+Proof. intros bs H. exact (conj (packet_wire_spec bs H) (packet_stream_spec bs H)). Qed.
+Print Assumptions C04_packet_readers.
+
+Theorem C04_registration_data :
+  forall t bs, bytes_ok bs = true ->
+  outcome (devinfo t bs) <> Panic /\ alloc (devinfo t bs) <= len bs + 30600.
+Proof. exact devinfo_spec. Qed.
+Print Assumptions C04_registration_data.
+
+(* ---- base64 transform: the contract of encoding/base64 is a hypothesis --------------------- *)
+(* dec = what base64.StdEncoding.Decode answers for p (observed by the harness on every case) *)
+Theorem C04_b64_shift :
+  forall shift dec p,
+  dec <> Panic -> (forall d, dec = Ok d -> len d <= len p / 4 * 3) ->
+  outcome (b64_read shift dec p) <> Panic /\ alloc (b64_read shift dec p) <= len p.
+Proof. exact b64_read_spec. Qed.
+Print Assumptions C04_b64_shift.
+
+(* ---- receive(): Multi container walk over bytes, nested containers, fragment dispatch -------
+   the input is the stream form of a Packet; receive(s, l, &p) on the Session of device `self`.
+   K = 2 (a tag count of up to 65535 is paid for by at most 32768 tags read), C = two unpaid tag
+   slices (the top packet's, and the one sub-packet on which the walk fails). *)
+Theorem C04_receive_containers :
+  forall self bs, bytes_ok bs = true ->
+  outcome (receive_bytes self bs) <> Panic /\ alloc (receive_bytes self bs) <= 2 * len bs + 2 * (4 * 65535).
+Proof. exact receive_bytes_spec. Qed.
+Print Assumptions C04_receive_containers.
+
+(* ---- termination: the fuel of the model loops is never exhausted ----------------------------
+   (decodePacket's label walk and decodePackets advance, list loops consume a byte per entry,
+   every sub-packet of a container takes at least 46 bytes of its parent's body) *)
+Theorem C04_loops_terminate :
+  forall self bs, bytes_ok bs = true ->
+  outcome (dns_read true bs) <> Err EFuel /\
+  outcome (strlist_flat true bs) <> Err EFuel /\
+  outcome (receive_bytes self bs) <> Err EFuel.
+Proof. intros self bs H. exact (conj (dns_read_fuel bs H) (conj (strlist_flat_fuel bs) (receive_bytes_fuel self bs H))). Qed.
+Print Assumptions C04_loops_terminate.
+
+Theorem C04_counted_list_terminates :
+  forall c esz fs r, fs <> [] -> outcome (counted true c esz fs r) <> Err EFuel.
+Proof. exact counted_fuel. Qed.
+Print Assumptions C04_counted_list_terminates.
+
+(* ---- the known finding stream-bytes-alloc: the stream reader -------------------------------
+   FULL statement (false on the tree):
+     forall bs, bytes_ok bs = true -> alloc (run DBytesS bs) <= 128 * len bs + 1048576
+   refuted by the five bytes 05 02 00 00 00 (32 MiB); what does hold: it never panics (part of
+   C04_no_panic, after fix 05faa5c also for the string list) and never asks for more than MaxSlice. *)
+Theorem C04_stream_bytes_alloc_refuted :
+  exists bs, bytes_ok bs = true /\ alloc (run DBytesS bs) > 128 * len bs + 1048576.
+Proof. exact stream_alloc_refuted_thr. Qed.
+Print Assumptions C04_stream_bytes_alloc_refuted.
+
+Theorem C04_stream_bytes_alloc_partial :
+  forall bs, alloc (run DBytesS bs) <= MaxSlice.
+Proof. exact stream_bytes_alloc_partial. Qed.
+Print Assumptions C04_stream_bytes_alloc_partial.
+
+(* ---- non-vacuity: the hypotheses are satisfiable and the decoders really decode ------------ *)
+(* a DNS answer carrying "hi!" decodes to it; a two-element listing decodes; both allocate *)
+Example C04_nonvacuous :
+  bytes_ok [18;52;132;128;0;1;0;0;0;0;0;1; 1;97;0;0;1;0;1; 192;12;0;10;0;1;0;0;0;0;0;3;104;105;33] = true /\
+  run DDns [18;52;132;128;0;1;0;0;0;0;0;1; 1;97;0;0;1;0;1; 192;12;0;10;0;1;0;0;0;0;0;3;104;105;33]
+    = (Ok [104;105;33], 3) /\
+  run (DResult RFuncRemapList) [0;0;0;2; 0;0;0;1; 0;0;0;0;0;0;0;2; 0;0;0;0;0;0;0;3;
+                                         0;0;0;4; 0;0;0;0;0;0;0;5; 0;0;0;0;0;0;0;6]
+    = (Ok [2; 0], 48) /\
+  outcome (run (DResult RFuncRemapList) [0;0;0;200; 1;2;3]) = Err ErrUnexpectedEOF /\
+  (* the first of three fragments of group 5 opens a cluster in Session.frags *)
+  outcome (receive_bytes
+    [65;66;67;68;69;70;71;72;73;74;75;76;77;78;79;80;81;82;83;84;85;86;87;88;89;90;91;92;93;94;95;96]
+    [192;0;1;0;0;0;3;0;0;0;5;0;1;65;66;67;68;69;70;71;72;73;74;75;76;77;78;79;80;81;82;83;84;85;86;87;
+     88;89;90;91;92;93;94;95;96;1;4;1;8;15;22]) = Ok [1].
+Proof. repeat split; vm_compute; reflexivity. Qed.
